@@ -607,7 +607,9 @@ class Pair(object):
         if self.held:
             del self.held[i % len(self.held)]
 
-    def use(self, c, args, mode):
+    def use(self, c, args, mode, expired=False):
+        """expired: the peer application gives up on the answer at once (AsyncResult.set_expiry(0)): the reply that arrives later is
+        dropped by the result, so whatever reference it carries must be released again (oracle-only op 'useexp')"""
         if self.kind == "module":
             return False            # modules are not callable
         idx = [self._find(k) for k in [c] + list(args)]
@@ -616,6 +618,8 @@ class Pair(object):
         ps = [self.held[i] for i in idx]
         res = netref.asyncreq(ps[0], consts.HANDLE_CALL, (mode,) + tuple(ps[1:]), ())
         del ps
+        if expired:
+            res.set_expiry(0)
         held, log = self.held, self.use_results
 
         def got(r, c=c, mode=mode):
@@ -721,7 +725,7 @@ class Pair(object):
 # op encodings (lists, JSON/sx friendly); the model sees model_op(op)
 #  ["send", ks, nest] ["sendsync", ks, nest] ["sendraise", ks, nest] ["dab"] ["dba"] ["drop1", k] ["dropall", k]
 #  ["use", c, args, mode] (mode 0 value / 1 returns its first argument / 2 raises) ["forget", k] ["sync"]
-#  ["close", by_peer, fault] ["rawdel", k, n] ["rawlocal", k]   oracle-only histories also: ["dropidx", i] ["morph", k]
+#  ["close", by_peer, fault] ["rawdel", k, n] ["rawlocal", k]   oracle-only histories also: ["dropidx", i] ["morph", k] ["useexp", c, args, mode]
 
 def _mode(x):
     return 1 if x is True else 0 if x is False else int(x)
@@ -771,6 +775,7 @@ def apply_op(p, op):
     elif t == "dropall": p.drop_all(op[1])
     elif t == "dropidx": p.drop_index(op[1])
     elif t == "use": p.use(op[1], op[2], _mode(op[3]))
+    elif t == "useexp": p.use(op[1], op[2], _mode(op[3]), True)
     elif t == "forget": p.forget(op[1])
     elif t == "morph": p.morph(op[1])
     elif t == "sync": p.sync()
@@ -1248,6 +1253,11 @@ CORPUS2 = [
     ("instance", 1, [["sendsync", [0], 0], ["morph", 0], ["dropall", 0], ["sync"], ["sync"]]),
     ("module", 1, [["sendsync", [0], 0], ["morph", 0], ["dropall", 0], ["sync"], ["sync"]]),
     ("module", 2, [["sendsync", [0, 1, 0], 0], ["drop1", 0], ["send", [1], 0], ["dab"], ["dropall", 1], ["sync"]]),
+    # the peer application has given up on a request (its result expired) before the reply, which carries a reference, arrives:
+    # the reference is consumed by nobody, so it has to be released (A: the peer holds no other proxy of that object; B: it does)
+    ("instance", 2, [["sendsync", [0, 1], 0], ["useexp", 0, [1], 1], ["dropall", 1], ["sync"], ["sync"], ["sync"]]),
+    ("instance", 2, [["sendsync", [0, 1], 0], ["useexp", 0, [1], 1], ["sync"], ["sync"], ["dropall", 1], ["sync"], ["sync"]]),
+    ("class", 2, [["sendsync", [0, 1, 1], 0], ["useexp", 0, [1], 1], ["dba"], ["drop1", 1], ["dab"], ["sync"], ["sync"]]),
 ]
 
 
@@ -1303,6 +1313,8 @@ def run(ctx):
         for j, o in enumerate(ops):
             if o[0] == "drop1" and r.random() < 0.5:
                 ops[j] = ["dropidx", r.randrange(1000)]
+            if o[0] == "use" and _mode(o[3]) in (0, 1) and r.random() < 0.3:
+                ops[j] = ["useexp"] + list(o[1:])
         if not has_close(ops):
             ops += epilogue(nobj)
         cases2.append({"nobj": nobj, "ops": ops, "flavour": flavour, "kind": kind})
